@@ -14,7 +14,11 @@
 (*                                      "panic" (a program whose           *)
 (*                                      registration panics does not       *)
 (*                                      serve)                             *)
-(*     Lookup{i, m, path, ran, mw, params, byName, fullPath, status}       *)
+(*     Lookup{i, m, path, ran, mw, params, byName, fullPath, status, prev} *)
+(*                                      (the handler first overwrites the  *)
+(*                                      URI path with junk; prev = params  *)
+(*                                      kept from the previous request,    *)
+(*                                      read again after this one)         *)
 (*                                      one per lookup of the case, in     *)
 (*                                      order; ran = ids of the route      *)
 (*                                      handlers that ran, mw = number of  *)
@@ -153,6 +157,11 @@ TraceLookup ==
                      /\ Line.params = pl
                      /\ Line.byName = ByNameList(res.r, pl)
                 ELSE Line.ran = << >>
+       \* the parameter strings kept from the previous request still hold the values matched then
+       /\ lk = 1 => Line.prev = << >>
+       /\ (lk > 1 /\ Len(ex) = N /\ ex[lk - 1].in) =>
+            Line.prev = IF ex[lk - 1].res.found
+                        THEN ParamList(ex[lk - 1].res.r, ex[lk - 1].res.vals, Cs.raw /\ Cs.unesc) ELSE << >>
        /\ last' = IF SpecInv /\ ord = 1 /\ in
                   THEN [m |-> Line.m, path |-> rp, res |-> res, ran |-> Line.ran] ELSE NoLookup
   /\ lk' = lk + 1 /\ outcome' = "none"
